@@ -123,6 +123,82 @@ func TestBounded_C01(t *testing.T) {
 	}
 	bStat("C01.exhaustive_states", total)
 	bRandomHistories(t, "C01")
+	bKeyTypes(t)
+}
+
+// bKeyTypes: every built-in key type, including the extremes of its range, under the default
+// order: keys are given in ascending order, inserted shuffled, and must come back ascending.
+func bKeyTypes(t *testing.T) {
+	type fam struct {
+		name string
+		like interface{}
+		keys []interface{}
+	}
+	const maxI, minI = int64(9223372036854775807), int64(-9223372036854775808)
+	fams := []fam{
+		{"int", int(0), []interface{}{int(minI), int(minI + 1), -1 << 40, -3, -1, 0, 1, 2, 1 << 40, int(maxI - 1), int(maxI)}},
+		{"int64", int64(0), []interface{}{minI, minI + 1, int64(-1 << 40), int64(-1), int64(0), int64(1), int64(1 << 40), maxI - 1, maxI}},
+		{"uint64", uint64(0), []interface{}{uint64(0), uint64(1), uint64(1 << 40), uint64(1<<63 - 1), uint64(1 << 63), uint64(1<<64 - 2), uint64(1<<64 - 1)}},
+		{"uint", uint(0), []interface{}{uint(0), uint(1), uint(1 << 63), uint(1<<64 - 1)}},
+		{"string", "", []interface{}{"", "\x00", "A", "B", "a", "aa", "ab", "b", "zz"}},
+	}
+	n := 0
+	for _, f := range fams {
+		for _, bf := range []uint{2, 16} {
+			for _, nf := range bFormats {
+				st := newBStore("mem://keytypes")
+				m, err := NewRoot(&CreateRemoteOptions{BranchFactor: bf, NodeFormat: nf}).LoadMast(bctx, &RemoteConfig{KeysLike: f.like, ValuesLike: int(0), StoreImmutablePartsWith: st})
+				if err != nil {
+					continue
+				}
+				order := make([]int, len(f.keys))
+				for i := range order {
+					order[i] = (i*5 + 3) % len(f.keys)
+				}
+				seen := map[int]bool{}
+				for _, i := range order {
+					if seen[i] {
+						continue
+					}
+					seen[i] = true
+					if err := m.Insert(bctx, f.keys[i], i); err != nil {
+						bViolation(t, "C01", "keytype-insert", "%s keys bf=%d nf=%s: Insert(%v) failed: %v", f.name, bf, nf, f.keys[i], err)
+					}
+				}
+				for i := range f.keys {
+					if !seen[i] {
+						m.Insert(bctx, f.keys[i], i)
+					}
+				}
+				for round := 0; round < 2; round++ {
+					n++
+					var got []interface{}
+					err := m.Iter(bctx, func(k, v interface{}) error { got = append(got, k); return nil })
+					if err != nil || fmt.Sprint(got) != fmt.Sprint(f.keys) {
+						bViolation(t, "C01", "keytype-order", "%s keys bf=%d nf=%s (round %d: 0 in memory, 1 re-loaded): iteration yields %v (err %v), ascending order is %v", f.name, bf, nf, round, got, err, f.keys)
+						break
+					}
+					for i, k := range f.keys {
+						var v int
+						ok, err := m.Get(bctx, k, &v)
+						if err != nil || !ok || v != i {
+							bViolation(t, "C01", "keytype-lookup", "%s keys bf=%d nf=%s (round %d): Get(%v) = %d found=%v err=%v, want %d", f.name, bf, nf, round, k, v, ok, err, i)
+						}
+					}
+					root, err := m.MakeRoot(bctx)
+					if err != nil {
+						break
+					}
+					m, err = root.LoadMast(bctx, &RemoteConfig{KeysLike: f.like, ValuesLike: int(0), StoreImmutablePartsWith: st})
+					if err != nil {
+						bViolation(t, "C05", "reload-error", "%s keys bf=%d nf=%s: LoadMast: %v", f.name, bf, nf, err)
+						break
+					}
+				}
+			}
+		}
+	}
+	bStat("C01.keytype_rounds", n)
 }
 
 // bRandomHistories: seeded random histories over keys 0..31 (deep trees at small branch factors),
@@ -192,7 +268,12 @@ func bRandomHistories(t *testing.T, prop string) {
 				} else {
 					snaps = append(snaps, snap{root: root, model: bCopyModel(model), at: i})
 				}
-			case 2: // continue on a re-loaded tree
+			case 2: // continue on a re-loaded tree, sometimes through a cold cache (another process)
+				if cache != nil && r.intn(2) == 0 {
+					if _, err := m.MakeRoot(bctx); err == nil {
+						cache = NewNodeCache(64)
+					}
+				}
 				m2, root, err := bReload(m, st, cache, r.intn(2) == 0)
 				if err != nil {
 					bViolation(t, "C05", "reload-error", "%s history: %s\n%v", cfg, bHist(hist), err)
@@ -346,7 +427,7 @@ func bWalkShape(root *Root, st Persist, model map[int]int) string {
 	if uint64(count) != root.Size {
 		return fmt.Sprintf("root records size %d, %d entries are reachable", root.Size, count)
 	}
-	if count != len(model) {
+	if model != nil && count != len(model) {
 		return fmt.Sprintf("%d entries reachable, model has %d", count, len(model))
 	}
 	return ""
@@ -469,6 +550,33 @@ func TestBounded_C04(t *testing.T) {
 		}
 	}
 	bStat("C04.random_contents", seeds)
+	// a single insert that has to raise the tree by two levels at once
+	for _, bf := range []uint{2, 3} {
+		st := newBStore("mem://jump")
+		m, _ := bNewTree(bf, V115Binary, st, nil)
+		model := map[int]int{}
+		var hist []bOp
+		for k := 1; len(model) < int(bf*bf)+1; k++ {
+			if uint(k)%bf == 0 {
+				continue
+			}
+			m.Insert(bctx, k, 0)
+			model[k] = 0
+			hist = append(hist, bOp{false, k, 0})
+		}
+		k := int(bf * bf * bf)
+		m.Insert(bctx, k, 1)
+		model[k] = 1
+		hist = append(hist, bOp{false, k, 1})
+		if root, err := m.MakeRoot(bctx); err == nil {
+			if want := bExpectedHeight(model, bf); root.Height != want {
+				bViolation(t, "C04", "height-rule", "bf=%d history: %s\ncontents %s persisted with height %d, the size rule gives %d", bf, bHist(hist), bModelString(model), root.Height, want)
+			}
+			if msg := bWalkShape(root, st, model); msg != "" {
+				bViolation(t, "C09", "shape", "bf=%d history: %s\npersisted version %s: %s", bf, bHist(hist), bRootString(root), msg)
+			}
+		}
+	}
 	// the height follows the highest key layer down as well as up: delete the only high-layer keys
 	for _, bf := range []uint{2, 3} {
 		for _, nf := range bFormats {
@@ -534,6 +642,67 @@ func TestBounded_C09(t *testing.T) {
 		}
 	}
 	bStat("C09.exhaustive_states", total)
+	// versions persisted after a Delete that failed on a store fault are still well-shaped and
+	// record the number of entries they reach
+	seeds := 10
+	if bTier() == "thorough" {
+		seeds = 60
+	}
+	cases := 0
+	for seed := 1; seed <= seeds; seed++ {
+		r := &bRand{uint64(seed)*0xE7037ED1A0B428DB + 41}
+		bf := uint(2 + r.intn(3))
+		nf := bFormats[r.intn(2)]
+		st := newBStore("mem://shape-after-fault")
+		model := map[int]int{}
+		for i, n := 0, 6+r.intn(24); i < n; i++ {
+			model[r.intn(40)] = r.intn(3)
+		}
+		base, err := bBuild(bf, nf, st, model, 0, false)
+		if err != nil {
+			continue
+		}
+		root, err := base.MakeRoot(bctx)
+		if err != nil {
+			continue
+		}
+		for _, k := range bModelKeys(model) {
+			for n := 1; n <= 12; n++ {
+				m, err := root.LoadMast(bctx, bCfg(st, nil))
+				if err != nil {
+					break
+				}
+				// make the entry's node private first (an update), as a live tree would have it
+				val := model[k]
+				if n%2 == 0 {
+					val += 10
+					if err := m.Insert(bctx, k, val); err != nil {
+						break
+					}
+				}
+				st.reset()
+				st.failLoad = n
+				if n%4 == 0 {
+					st.failAll = true
+				}
+				var derr error
+				p := bSafely(func() string { derr = m.Delete(bctx, k, val); return "" })
+				st.reset()
+				if p != "" || derr == nil {
+					break
+				}
+				cases++
+				r2, err := m.MakeRoot(bctx)
+				if err != nil {
+					continue
+				}
+				if msg := bWalkShape(r2, st, nil); msg != "" {
+					bViolation(t, "C09", "shape-after-failed-delete", "seed=%d bf=%d nf=%s contents %s\nDelete(%d,%d) failed (%d-th store Load failing: %v); the version persisted afterwards (%s) is malformed: %s", seed, bf, nf, bModelString(model), k, model[k], n, derr, bRootString(r2), msg)
+				}
+			}
+		}
+	}
+	bStat("C09.failed_delete_cases", cases)
 }
 
 func TestBounded_C05(t *testing.T) {
@@ -600,9 +769,17 @@ func bTypedRoundTrip(t *testing.T) {
 		{"uint64/string", func(st Persist) *RemoteConfig {
 			return &RemoteConfig{KeysLike: uint64(0), ValuesLike: "", StoreImmutablePartsWith: st}
 		}, func(i int) interface{} { return uint64(i * 3) }, func(i int) interface{} { return fmt.Sprintf("v%d", i) }},
-		{"int/nil-values", func(st Persist) *RemoteConfig {
-			return &RemoteConfig{KeysLike: int(0), ValuesLike: nil, StoreImmutablePartsWith: st}
-		}, func(i int) interface{} { return i * 2 }, func(i int) interface{} { return nil }},
+		{"int/map-values", func(st Persist) *RemoteConfig {
+			return &RemoteConfig{KeysLike: int(0), ValuesLike: map[string]int{}, StoreImmutablePartsWith: st}
+		}, func(i int) interface{} { return i * 5 }, func(i int) interface{} { return map[string]int{fmt.Sprintf("f%d", i%7): i} }},
+		{"string/struct-values", func(st Persist) *RemoteConfig {
+			return &RemoteConfig{KeysLike: "", ValuesLike: bOptStruct{}, StoreImmutablePartsWith: st}
+		}, func(i int) interface{} { return fmt.Sprintf("s%02d", i) }, func(i int) interface{} {
+			if i%2 == 0 {
+				return bOptStruct{A: i + 1}
+			}
+			return bOptStruct{B: fmt.Sprintf("b%d", i), C: []int{i}}
+		}},
 	}
 	for _, c := range cases {
 		for _, nf := range bFormats {
@@ -644,4 +821,12 @@ func bTypedRoundTrip(t *testing.T) {
 			}
 		}
 	}
+}
+
+// bOptStruct: a value type whose JSON form omits zero fields (decoding onto a used value would
+// keep the previous entry's fields)
+type bOptStruct struct {
+	A int    `json:",omitempty"`
+	B string `json:",omitempty"`
+	C []int  `json:",omitempty"`
 }
